@@ -145,8 +145,8 @@ Section Run.
                     ires ires_reset ires_resolve v_out v_in cfg HC s e HX) as Hnid.
       destruct e as [now p t|now dl|now|now data|now|now cap fill|now|now]; cbn [Model.step step_dlog AliasRunLog.step_olog] in *.
       - (* submission *)
-        unfold out_of_res. cbn [fst]. unfold grun. cbn [fold_left accepts]. split; [split; exact I|].
-        apply user_event_J; assumption.
+        unfold out_of_res. cbn [fst]. unfold grun. cbn [fold_left accepts].
+        destruct (user_event_J cfg i s g p t HW Hsub HJ) as [A B]. split; [split; [exact A|exact I]|exact B].
       - (* connection opened *)
         unfold out_of_res. cbn [fst]. destruct (pstate_eqb (s_st s) Disconnected) eqn:Est.
         + apply pstate_eqb_eq in Est. cbn [map accepts]. unfold grun. cbn [fold_left gnext]. split; [split; exact I|].
